@@ -222,11 +222,22 @@ def step (d : DState) (line : String) : DState × String :=
       let r := execS Str.exec .get d.R shared { cache := d.cache, priv := d.priv, st := d.st } c
       ({ d with cache := r.1.cache, priv := r.1.priv, st := r.1.st }, showReply r.2)
     | none => (d, "bad-op")
+  | ["EVAL0SET", k, v] =>
+    -- a script without KEYS that writes the key named by ARGV[1]: runs on shard 0
+    match (bytesTok.run [k]), (bytesTok.run [v]) with
+    | some (kb, _), some (vb, _) =>
+      let r := execKeyless Str.exec d.st (.single (keyCode kb) (.set vb))
+      ({ d with st := r.1 }, showReply r.2)
+    | _, _ => (d, "bad-op")
   | "TNEW" :: _ =>
     match runP parseTNew line with
     | some (n, f, tbl) =>
       let t : NMap (Nat × Nat) := NMap.ofList (tbl.map (fun e => (e.1, (e.2.2, e.2.2))))
       ({ d with R := Routes.ofTable n t, carries := f, tst := Clock.tinit n }, "ok")
+    | none => (d, "bad-op")
+  | ["T", now, "EVICT"] =>
+    match now.toNat? with
+    | some n => let r := Clock.evictAll d.tst n; ({ d with tst := r.1 }, s!"i:{r.2}")
     | none => (d, "bad-op")
   | "T" :: _ =>
     match runP parseT line with
